@@ -231,7 +231,15 @@ class Pipeline(object):
 
         self._worker_tasks.clear()
 
-        yield from self._producer_task
+        if not self._producer_task.done():
+            # The producer may be waiting to queue an item that no worker
+            # is left to take.
+            self._producer_task.cancel()
+
+        try:
+            yield from self._producer_task
+        except asyncio.CancelledError:
+            pass
 
         self._state = PipelineState.stopped
 
